@@ -308,6 +308,7 @@ PROPS = {
             sub("vectort", "c10_history", 5000, 200000),
             sub("krigcalc", "c10_history", 3000, 100000),
             sub("modelinc", "c10_history", 1500, 40000),
+            sub("target_order", "c10_history", 2500, 80000),
         ]),
     "C13": dict(
         level="exploration",
